@@ -6,7 +6,7 @@ D=$(cd "$1" && pwd); shift
 cd /repo || exit 2
 if [ -n "$(git status --porcelain --untracked-files=no)" ]; then echo "/repo not clean"; exit 2; fi
 git apply --check "$D/patch.diff" || { echo "PATCH DOES NOT APPLY"; exit 3; }
-WT=$(echo "$D" | sed -n 's#^\(/tmp/wt/C[0-9]*\)/.*#\1#p')
+WT=$(echo "$D" | sed -n 's#^\(/tmp/wt[0-9]*/C[0-9]*\)/.*#\1#p')
 DEMO=/tmp/demo_$$.py
 if [ -f "$D/demo_test.py" ]; then
   if [ -n "$WT" ]; then sed "s#$WT#/repo#g" "$D/demo_test.py" > $DEMO; else cp "$D/demo_test.py" $DEMO; fi
